@@ -11,6 +11,9 @@ extracted checkers - the functions the theorems in Props/C10.v and Props/C16.v a
 op = (call, sched, scr)
   call : ("connect", ok) ("reconnect", ok) ("disconnect",) ("publish",) ("subscribe",)
          ("read", kind, param[, variant]) ("write",) ("misc", m)
+         ("readn", ((kind, param[, variant]), ...)): ONE loop_read() call that may process as many packets as there
+         are inputs (messages are stored so that max_packets = number of inputs); input k is what the socket that is
+         current at the k-th _packet_read() delivers
   sched: tuple of send outcomes 0 all, 1 all-but-last-byte, 2 would-block, 3 zero, 4 OSError
   scr  : 8 tuples (sites connect, disconnect, open, close, regw, unregw, publish, discopen) of scripts; discopen is
          on_disconnect invoked while a socket is held (it announces a written DISCONNECT); a script is a
@@ -31,7 +34,8 @@ SITES = ["connect", "disconnect", "open", "close", "regw", "unregw", "publish", 
 NOSCR = ((),) * 8
 READK = {"connack": 0, "downgrade": 1, "sdisc": 2, "unknown": 3, "eof": 4, "rerr": 5, "pingreq": 6,
          "pingresp": 7, "other": 8, "nodata": 9}
-CALLK = {"connect": 0, "reconnect": 1, "disconnect": 2, "publish": 3, "subscribe": 4, "read": 5, "write": 6, "misc": 7}
+CALLK = {"connect": 0, "reconnect": 1, "disconnect": 2, "publish": 3, "subscribe": 4, "read": 5, "write": 6, "misc": 7,
+         "readn": 8}
 CS = {"MQTT_CS_NEW": 0, "MQTT_CS_CONNECT_ASYNC": 1, "MQTT_CS_CONNECTING": 2, "MQTT_CS_CONNECTED": 3,
       "MQTT_CS_CONNECTION_LOST": 4, "MQTT_CS_DISCONNECTING": 5, "MQTT_CS_DISCONNECTED": 6}
 KEEPALIVE = 60
@@ -42,6 +46,8 @@ OLD_SOCKCB_LOCKING = "with self._in_callback_mutex" in inspect.getsource(mqtt.Cl
 
 
 def O(call, sched=(), scr=NOSCR):
+    if call[0] == "readn":
+        call = ("readn", tuple(tuple(i) for i in call[1]))
     return (tuple(call), tuple(sched), tuple(tuple(tuple(s) for s in q) for q in scr))
 
 
@@ -67,6 +73,10 @@ def enc_op(o):
         b = int(call[2]) if len(call) > 2 else 0
     elif call[0] == "misc":
         a = call[1]
+    elif call[0] == "readn":
+        a = len(call[1])
+        for j, i in enumerate(call[1]):
+            b += (READK[i[0]] * 256 + (int(i[1]) if len(i) > 1 else 0)) * 4096 ** j
     out = [k, a, b, len(sched)] + list(sched)
     for q in scr:
         out.append(len(q))
@@ -307,6 +317,33 @@ class Run:
         elif kind == "other":
             s.feed(impl.pkt(0x90, b"\x00\x01\x00\x00" if v5 else b"\x00\x01\x00"))
 
+    def read_many(self, inputs):
+        """one loop_read() with max_packets = len(inputs): messages are stored for the duration of the call (the
+        budget is computed once, at its start), input k is fed to whatever socket is current at the k-th
+        _packet_read()"""
+        c = self.c
+        pending = collections.deque(inputs)
+        added = []
+        while len(c._out_messages) + len(c._in_messages) < len(inputs):
+            mid = 65000 + len(added)
+            m = mqtt.MQTTMessage(mid, b"t")
+            m.qos = 2          # only QoS 2 messages are ever stored there
+            c._in_messages[mid] = m
+            added.append(mid)
+        real = c._packet_read
+
+        def packet_read():
+            if pending and c._sock is not None:
+                self.feed_input(("read",) + tuple(pending.popleft()))
+            return real()
+        c._packet_read = packet_read
+        try:
+            return c.loop_read()
+        finally:
+            del c._packet_read
+            for mid in added:
+                c._in_messages.pop(mid, None)
+
     def step(self, o):
         call, sched, scr = o
         c = self.c
@@ -338,6 +375,9 @@ class Run:
                 if c._sock is not None:
                     self.feed_input(call)
                 rc = c.loop_read()
+            elif k == "readn":
+                ev.append([10, 5, 0, 0, 0, 0])
+                rc = self.read_many(call[1])
             elif k == "write":
                 ev.append([10, 6, 0, 0, 0, 0])
                 rc = c.loop_write()
@@ -449,28 +489,35 @@ def small_alphabet(cfg):
          O(("read", "sdisc", 0)), O(("misc", 1)), O(("misc", 2)),
          O(("read", "connack", 0), (), scr_of(connect=[[0]])),
          O(("read", "eof"), (), scr_of(disconnect=[[3]])),
-         O(("read", "pingreq"), (4,)), O(("disconnect",), (), scr_of(discopen=[[3]])), O(("disconnect",), (2,))]
+         O(("read", "pingreq"), (4,)), O(("disconnect",), (), scr_of(discopen=[[3]])), O(("disconnect",), (2,)),
+         O(("readn", (("connack", 0), ("eof",)))), O(("readn", (("downgrade", 1), ("eof",)))),
+         O(("readn", (("connack", 0), ("unknown",))), (), scr_of(connect=[[3]]))]
     return A
 
 
 def rand_op(rng, cfg, within=True):
     v5 = cfg["proto"] == 5
-    k = rng.choice(["connect", "reconnect", "disconnect", "publish", "subscribe", "read", "read", "read", "write", "write", "misc"])
-    if k in ("connect", "reconnect"):
-        call = (k, rng.random() < 0.8)
-    elif k == "read":
+    k = rng.choice(["connect", "reconnect", "disconnect", "publish", "subscribe", "read", "read", "read", "write", "write", "misc",
+                    "readn"])
+
+    def rand_input():
         kind = rng.choice(["connack", "connack", "connack", "downgrade", "sdisc", "unknown", "eof", "rerr", "pingreq",
                            "pingresp", "other", "nodata"])
         if kind == "connack":
-            call = ("read", kind, rng.choice([0, 0, 0, 1, (135 if v5 else 5)]))
-        elif kind == "downgrade":
-            call = ("read", kind, int(rng.random() < 0.7))
-        elif kind == "sdisc":
-            call = ("read", kind, rng.choice([0, 139]), rng.choice([0, 1]))
-        elif kind == "unknown":
-            call = ("read", kind, 0, rng.choice([0, 1]))
-        else:
-            call = ("read", kind)
+            return (kind, rng.choice([0, 0, 0, 1, (135 if v5 else 5)]))
+        if kind == "downgrade":
+            return (kind, int(rng.random() < 0.7))
+        if kind == "sdisc":
+            return (kind, rng.choice([0, 139]), rng.choice([0, 1]))
+        if kind == "unknown":
+            return (kind, 0, rng.choice([0, 1]))
+        return (kind,)
+    if k in ("connect", "reconnect"):
+        call = (k, rng.random() < 0.8)
+    elif k == "read":
+        call = ("read",) + rand_input()
+    elif k == "readn":
+        call = ("readn", tuple(rand_input() for _ in range(rng.choice([1, 2, 2, 2, 3, 3]))))
     elif k == "misc":
         call = ("misc", rng.choice([0, 1, 1, 2]))
     else:
@@ -533,6 +580,13 @@ def corpus_cases():
         ("F-C10d", cb, [O(("connect", True), (), scr_of(open=[[0]]))], None),
         ("F-C10d-disconnect", cb, [O(("connect", True), (), scr_of(open=[[2, 0]])), O(("read", "connack", 0)), O(("write",))], None),
         ("F-C10h-loop-error", excb, [O(("connect", True)), O(("write",)), ca, O(("publish",)), O(("read", "eof"))], None),
+        ("multi-read-downgrade-then-eof", d4, [O(("connect", True)), O(("readn", (("downgrade", 1), ("eof",))))], None),
+        ("multi-read-reconnect-in-on-connect-then-refused", d4,
+         [O(("connect", True)), O(("readn", (("connack", 0), ("connack", 5))), (), scr_of(connect=[[3]]))], None),
+        ("multi-read-three-packets", excb,
+         [O(("connect", True)), O(("readn", (("connack", 0), ("pingreq",), ("rerr",))), (2,))], None),
+        ("multi-read-server-disconnect-then-budget", d5,
+         [O(("connect", True)), O(("readn", (("connack", 0), ("sdisc", 139, 1), ("pingreq",))))], None),
         ("F-C10h", ex, [O(("connect", True)), ca, O(("connect", False))], "H"),
         ("F-C10k", excb, [O(("connect", True), (), scr_of(open=[[3]])), O(("write",))], "D"),
         ("F-C10k-direct", cb, [O(("connect", True), (), scr_of(open=[[3]]))], "D"),
